@@ -724,6 +724,93 @@ pub fn explore(rep: &mut Report, sub: &Subject, cfg: &EnvCfg) {
     rep.add("subjects", 1);
 }
 
+/// "A writer waiting for space is released once its reader is gone", at block
+/// level: fill the block's outputs without reading them, end its inputs, let
+/// the readers of its outputs go away, and apply the runners' retirement rule
+/// to every further call. It has to be retired within a bounded number of
+/// calls, or MTGraph::run() never returns.
+pub fn downstream_gone(rep: &mut Report, sub: &Subject) {
+    let start = Start::plain();
+    let mut inst = (sub.build)(&start);
+    if inst.outs.is_empty() || inst.outs.iter().all(|o| o.is_packet()) {
+        return;
+    }
+    rep.evaluations += 1;
+    rep.distinct_nontrivial += 1;
+    let mut log: Vec<String> = vec![];
+    let mut dead = false;
+    // 1. Feed without ever releasing output, until nothing moves.
+    let mut idle = 0;
+    for _ in 0..64 {
+        for p in &mut inst.ins {
+            p.feed(usize::MAX / 4);
+            if p.remaining() == 0 && !p.closed() {
+                p.close();
+            }
+        }
+        let a0 = rustradio::verif::activity();
+        let v = inst.work();
+        log.push(v.short());
+        match v {
+            Verdict::Panic(_) | Verdict::Err(_) | Verdict::Eof => {
+                dead = true;
+                break;
+            }
+            _ => {}
+        }
+        if rustradio::verif::activity() == a0 {
+            idle += 1;
+            if idle >= 2 {
+                break;
+            }
+        } else {
+            idle = 0;
+        }
+    }
+    if dead {
+        return;
+    }
+    // 2. The readers go away.
+    for o in &mut inst.outs {
+        o.close();
+    }
+    let ids_out: Vec<usize> = inst.outs.iter().map(|p| p.id()).collect();
+    // 3. The runner's loop (an upstream that is still alive keeps delivering).
+    for _ in 0..24 {
+        for p in &mut inst.ins {
+            p.feed(usize::MAX / 4);
+            if p.remaining() == 0 && !p.closed() {
+                p.close();
+            }
+        }
+        let v = inst.work();
+        log.push(v.short());
+        let retired = match &v {
+            Verdict::Eof | Verdict::Panic(_) | Verdict::Err(_) => true,
+            Verdict::WaitStream { id, need, closed } => {
+                let eof = catch(|| rustradio::block::BlockEOF::eof(&mut *inst.block)).unwrap_or(false);
+                let in_never = inst.ins.iter().any(|p| p.id() == *id && p.closed() && p.backlog() < *need);
+                let out_never = *closed && ids_out.contains(id);
+                eof || in_never || out_never
+            }
+            Verdict::WaitFunc => catch(|| rustradio::block::BlockEOF::eof(&mut *inst.block)).unwrap_or(false),
+            Verdict::Again | Verdict::Pending => false,
+        };
+        if retired {
+            return;
+        }
+    }
+    let tail: Vec<String> = log.iter().rev().take(8).rev().cloned().collect();
+    rep.violation(
+        format!("C09/{}/not-released-after-downstream-gone", sub.block),
+        format!(
+            "{}: outputs full and unread, then the readers of the outputs gone (inputs ended or still being fed): after 24 more calls no verdict lets a runner retire the block (last verdicts {tail:?})",
+            sub.id()
+        ),
+        json!({"engine": "envx", "subject": sub.id(), "mode": "downstream-gone"}),
+    );
+}
+
 /// Re-run one recorded case and judge it with the oracle of `prop`.
 pub fn replay_one(rep: &mut Report, sub: &Subject, prop: &'static str, start: &Start, acts: &[Act]) {
     let ref_start = Start {
